@@ -1,5 +1,5 @@
 #!/usr/bin/env python3
-"""cross.py [-j N] [max_per_mutant]: sensitivity under refactoring. For every mutant of /verif/mutants/*.json and every
+"""cross.py [-j N] [max_per_mutant [property]]: sensitivity under refactoring. For every mutant of /verif/mutants/*.json and every
 behaviour-preserving control (/verif/controls/*.diff) that touches the mutant's file and still contains the mutant's
 anchor text exactly once after it is applied: apply control + mutant to a scratch worktree of /repo's HEAD, run the
 mutant's property check and require a VIOLATION (any rule of that property; `expect` is reported separately).
@@ -41,11 +41,14 @@ def main():
     if args and args[0] == "-j":
         j = int(args[1]); args = args[2:]
     cap = int(args[0]) if args else 4
+    only = args[1] if len(args) > 1 else None
     ctls = sorted(glob.glob(V + "/controls/*.diff"))
     tmap = {c: touched(c) for c in ctls}
     jobs = []
     for mf in sorted(glob.glob(V + "/mutants/*.json")):
         pid = os.path.basename(mf)[:-5]
+        if only and pid != only:
+            continue
         for m in json.load(open(mf)):
             cs = [c for c in ctls if m["file"] in tmap[c]]
             # spread over the rounds: take every k-th
@@ -62,6 +65,6 @@ def main():
     for r in miss:
         print("CROSS-MISS %s %s on %s" % (r["prop"], r["mutant"], r["control"]))
     os.makedirs(V + "/out", exist_ok=True)
-    json.dump(res, open(V + "/out/cross.json", "w"), indent=1)
+    json.dump(res, open(V + "/out/cross%s.json" % ("-" + only if only else ""), "w"), indent=1)
 if __name__ == "__main__":
     main()
